@@ -357,10 +357,13 @@ def compare(real: list[dict], answers: list[str]) -> dict:
                     (model[i]["hit"], model[i]["name"], model[i]["domain"]):
                 res["naming"].append({"site": i, "real": [real[i]["hit"], real[i]["name"], real[i]["domain"]],
                                       "model": [model[i]["hit"], model[i]["name"], model[i]["domain"]]})
+    drift_sites = {i for pair in res["finer"] for i in pair}
     for i in range(n):
         c = real[i]["call"] or {}
         if c.get("n_in") != real[i]["def_in"] or c.get("n_out") != real[i]["def_out"]:
             res["arity"].append({"site": i, "call": c, "def": [real[i]["def_in"], real[i]["def_out"]], "kind": "real"})
+        elif i in drift_sites:
+            pass    # the real code is more conservative than the model here; only real call vs real def counts
         elif c.get("n_in") != model[i]["n_in"] or c.get("n_out") != model[i]["n_out"]:
             res["arity"].append({"site": i, "call": c, "model": [model[i]["n_in"], model[i]["n_out"]], "kind": "model"})
         if c and (c.get("op"), c.get("domain")) != (real[i]["name"], real[i]["domain"]):
